@@ -53,9 +53,11 @@ class State:
         n.heap = {k: (list(v) if isinstance(v, list) else dict(v)) for k, v in self.heap.items()}
         n.handling = self.handling
         n.loop_depth = self.loop_depth
-        for k in ("old", "entry_env"):
+        for k in ("old", "entry_env", "in_quantifier"):
             if hasattr(self, k):
                 setattr(n, k, getattr(self, k))
+        if hasattr(self, "jkeys"):
+            n.jkeys = dict(self.jkeys)
         return n
 
     # heap
@@ -96,6 +98,8 @@ class State:
                 self.assume(a)
             return
         if t not in self.facts:
+            if tm.free_bvars(t) and not getattr(self, "in_quantifier", False):
+                return          # a typing fact about a quantified element: meaningless outside its binder
             self.facts.add(t)
             self.pc.append(t)
 
